@@ -233,6 +233,9 @@ static void wakeup_event_event(void *vp, void *arg)
     }
 }
 
+/* For the sweep in cmi_process_cancel_awaiteds, which must know the library's own wakeup calls */
+cmb_event_func *const cmi_event_wakeup_action = wakeup_event_event;
+
 void wake_event_waiters(struct cmi_slist_head *waiters,
                         const int64_t signal)
 {
@@ -448,6 +451,50 @@ uint64_t cmb_event_pattern_cancel(cmb_event_func *action,
     }
 
     /* Second pass, cancel the matching events */
+    for (uint64_t ui = 0u; ui < cnt; ui++) {
+        cmb_event_cancel(tmp[ui]);
+    }
+
+    cmi_free(tmp);
+    return cnt;
+}
+
+/*
+ * cmi_event_cancel_actions - Cancel all pending events for the given subject
+ * whose action is one of the n listed ones, and nothing else. Used to sweep the
+ * library's own wakeup calls to a process, leaving alone whatever events the
+ * application has scheduled with that process as their subject.
+ * Two passes to avoid mutate-while-iterate, as cmb_event_pattern_cancel.
+ */
+uint64_t cmi_event_cancel_actions(cmb_event_func *const *actions,
+                                  const uint64_t n,
+                                  const void *subject)
+{
+    cmb_assert_release(event_queue != NULL);
+    cmb_assert_debug(actions != NULL);
+
+    uint64_t cnt = 0u;
+    if ((event_queue->heap == NULL) || (event_queue->heap_count == 0u)) {
+        return cnt;
+    }
+
+    const uint64_t hcnt = event_queue->heap_count;
+    uint64_t *tmp = cmi_malloc(hcnt * sizeof(*tmp));
+    for (uint64_t ui = 1; ui <= hcnt; ui++) {
+        const struct cmi_heap_tag *htp = &(event_queue->heap[ui]);
+        if (subject != htp->item[1]) {
+            continue;
+        }
+
+        for (uint64_t uj = 0u; uj < n; uj++) {
+            const void *vaction = *(void *const *)&(actions[uj]);
+            if (vaction == htp->item[0]) {
+                tmp[cnt++] = htp->key;
+                break;
+            }
+        }
+    }
+
     for (uint64_t ui = 0u; ui < cnt; ui++) {
         cmb_event_cancel(tmp[ui]);
     }
